@@ -961,6 +961,10 @@ pub mod oxidd_core {
     pub use super::Node;
 }
 
+/// `Function::as_edge(manager)` / `Function::from_edge(manager, e)`: a function handle is modelled by its root edge
+pub trait AsEdgeExt: Sized { fn as_edge<M>(&self, manager: &M) -> (r: &Self) ensures r == self { self } }
+impl<E: Edge> AsEdgeExt for E {}
+pub fn from_edge<M: Manager>(manager: &M, e: M::Edge) -> (r: M::Edge) ensures r.view() == e.view() { e }
 pub struct EdgeDropGuard<'a, M: Manager> { pub manager: &'a M, pub edge: M::Edge }
 impl<'a, M: Manager> EdgeDropGuard<'a, M> {
     pub fn new(manager: &'a M, edge: M::Edge) -> (r: Self) ensures r.edge.view() == edge.view() { EdgeDropGuard { manager, edge } }
@@ -1425,6 +1429,152 @@ where M: Manager<Terminal = BDDTerminal> + HasApplyCache<M, BDDOp>, M::InnerNode
     requires wf(edge.view()),
     ensures r == sem(edge.view(), |l: int| !choices.spec_contains(l)),
     decreases edge.view(),
+//@end
+// ---------- default methods of BooleanFunction / BooleanFunctionQuant in oxidd-core/src/function.rs (the user-facing API) ----------
+//@fn file=crates/oxidd-core/src/function.rs path=trait:BooleanFunction/fn:and rename=api_and selfcall=Self::> withmgr=this props=C02
+//@header
+fn api_and<M>(manager: &M, this: &M::Edge, rhs: &M::Edge) -> (res: AllocResult<M::Edge>)
+where M: Manager<Terminal = BDDTerminal> + HasApplyCache<M, BDDOp>, M::InnerNode: HasLevel,
+//@spec
+    requires edge_ok::<M::Edge>(), ok(this.view(), manager.num_levels_spec()), ok(rhs.view(), manager.num_levels_spec()),
+    ensures res is Ok ==> ok(res->Ok_0.view(), manager.num_levels_spec())
+        && forall|env: Env| #[trigger] sem(res->Ok_0.view(), env) == prop_and(sem(this.view(), env), sem(rhs.view(), env)),
+//@end
+//@fn file=crates/oxidd-core/src/function.rs path=trait:BooleanFunction/fn:or rename=api_or selfcall=Self::> withmgr=this props=C02
+//@header
+fn api_or<M>(manager: &M, this: &M::Edge, rhs: &M::Edge) -> (res: AllocResult<M::Edge>)
+where M: Manager<Terminal = BDDTerminal> + HasApplyCache<M, BDDOp>, M::InnerNode: HasLevel,
+//@spec
+    requires edge_ok::<M::Edge>(), ok(this.view(), manager.num_levels_spec()), ok(rhs.view(), manager.num_levels_spec()),
+    ensures res is Ok ==> ok(res->Ok_0.view(), manager.num_levels_spec())
+        && forall|env: Env| #[trigger] sem(res->Ok_0.view(), env) == prop_or(sem(this.view(), env), sem(rhs.view(), env)),
+//@end
+//@fn file=crates/oxidd-core/src/function.rs path=trait:BooleanFunction/fn:nand rename=api_nand selfcall=Self::> withmgr=this props=C02
+//@header
+fn api_nand<M>(manager: &M, this: &M::Edge, rhs: &M::Edge) -> (res: AllocResult<M::Edge>)
+where M: Manager<Terminal = BDDTerminal> + HasApplyCache<M, BDDOp>, M::InnerNode: HasLevel,
+//@spec
+    requires edge_ok::<M::Edge>(), ok(this.view(), manager.num_levels_spec()), ok(rhs.view(), manager.num_levels_spec()),
+    ensures res is Ok ==> ok(res->Ok_0.view(), manager.num_levels_spec())
+        && forall|env: Env| #[trigger] sem(res->Ok_0.view(), env) == prop_nand(sem(this.view(), env), sem(rhs.view(), env)),
+//@end
+//@fn file=crates/oxidd-core/src/function.rs path=trait:BooleanFunction/fn:nor rename=api_nor selfcall=Self::> withmgr=this props=C02
+//@header
+fn api_nor<M>(manager: &M, this: &M::Edge, rhs: &M::Edge) -> (res: AllocResult<M::Edge>)
+where M: Manager<Terminal = BDDTerminal> + HasApplyCache<M, BDDOp>, M::InnerNode: HasLevel,
+//@spec
+    requires edge_ok::<M::Edge>(), ok(this.view(), manager.num_levels_spec()), ok(rhs.view(), manager.num_levels_spec()),
+    ensures res is Ok ==> ok(res->Ok_0.view(), manager.num_levels_spec())
+        && forall|env: Env| #[trigger] sem(res->Ok_0.view(), env) == prop_nor(sem(this.view(), env), sem(rhs.view(), env)),
+//@end
+//@fn file=crates/oxidd-core/src/function.rs path=trait:BooleanFunction/fn:xor rename=api_xor selfcall=Self::> withmgr=this props=C02
+//@header
+fn api_xor<M>(manager: &M, this: &M::Edge, rhs: &M::Edge) -> (res: AllocResult<M::Edge>)
+where M: Manager<Terminal = BDDTerminal> + HasApplyCache<M, BDDOp>, M::InnerNode: HasLevel,
+//@spec
+    requires edge_ok::<M::Edge>(), ok(this.view(), manager.num_levels_spec()), ok(rhs.view(), manager.num_levels_spec()),
+    ensures res is Ok ==> ok(res->Ok_0.view(), manager.num_levels_spec())
+        && forall|env: Env| #[trigger] sem(res->Ok_0.view(), env) == prop_xor(sem(this.view(), env), sem(rhs.view(), env)),
+//@end
+//@fn file=crates/oxidd-core/src/function.rs path=trait:BooleanFunction/fn:equiv rename=api_equiv selfcall=Self::> withmgr=this props=C02
+//@header
+fn api_equiv<M>(manager: &M, this: &M::Edge, rhs: &M::Edge) -> (res: AllocResult<M::Edge>)
+where M: Manager<Terminal = BDDTerminal> + HasApplyCache<M, BDDOp>, M::InnerNode: HasLevel,
+//@spec
+    requires edge_ok::<M::Edge>(), ok(this.view(), manager.num_levels_spec()), ok(rhs.view(), manager.num_levels_spec()),
+    ensures res is Ok ==> ok(res->Ok_0.view(), manager.num_levels_spec())
+        && forall|env: Env| #[trigger] sem(res->Ok_0.view(), env) == prop_equiv(sem(this.view(), env), sem(rhs.view(), env)),
+//@end
+//@fn file=crates/oxidd-core/src/function.rs path=trait:BooleanFunction/fn:imp rename=api_imp selfcall=Self::> withmgr=this props=C02
+//@header
+fn api_imp<M>(manager: &M, this: &M::Edge, rhs: &M::Edge) -> (res: AllocResult<M::Edge>)
+where M: Manager<Terminal = BDDTerminal> + HasApplyCache<M, BDDOp>, M::InnerNode: HasLevel,
+//@spec
+    requires edge_ok::<M::Edge>(), ok(this.view(), manager.num_levels_spec()), ok(rhs.view(), manager.num_levels_spec()),
+    ensures res is Ok ==> ok(res->Ok_0.view(), manager.num_levels_spec())
+        && forall|env: Env| #[trigger] sem(res->Ok_0.view(), env) == prop_imp(sem(this.view(), env), sem(rhs.view(), env)),
+//@end
+//@fn file=crates/oxidd-core/src/function.rs path=trait:BooleanFunction/fn:imp_strict rename=api_imp_strict selfcall=Self::> withmgr=this props=C02
+//@header
+fn api_imp_strict<M>(manager: &M, this: &M::Edge, rhs: &M::Edge) -> (res: AllocResult<M::Edge>)
+where M: Manager<Terminal = BDDTerminal> + HasApplyCache<M, BDDOp>, M::InnerNode: HasLevel,
+//@spec
+    requires edge_ok::<M::Edge>(), ok(this.view(), manager.num_levels_spec()), ok(rhs.view(), manager.num_levels_spec()),
+    ensures res is Ok ==> ok(res->Ok_0.view(), manager.num_levels_spec())
+        && forall|env: Env| #[trigger] sem(res->Ok_0.view(), env) == prop_imp_strict(sem(this.view(), env), sem(rhs.view(), env)),
+//@end
+//@fn file=crates/oxidd-core/src/function.rs path=trait:BooleanFunction/fn:not rename=api_not selfcall=Self::> withmgr=this props=C02
+//@header
+fn api_not<M>(manager: &M, this: &M::Edge) -> (res: AllocResult<M::Edge>)
+where M: Manager<Terminal = BDDTerminal> + HasApplyCache<M, BDDOp>, M::InnerNode: HasLevel,
+//@spec
+    requires edge_ok::<M::Edge>(), ok(this.view(), manager.num_levels_spec()),
+    ensures res is Ok ==> ok(res->Ok_0.view(), manager.num_levels_spec()) && forall|env: Env| #[trigger] sem(res->Ok_0.view(), env) == !sem(this.view(), env),
+//@end
+//@fn file=crates/oxidd-core/src/function.rs path=trait:BooleanFunction/fn:ite rename=api_ite selfcall=Self::> withmgr=this props=C02
+//@header
+fn api_ite<M>(manager: &M, this: &M::Edge, then_case: &M::Edge, else_case: &M::Edge) -> (res: AllocResult<M::Edge>)
+where M: Manager<Terminal = BDDTerminal> + HasApplyCache<M, BDDOp>, M::InnerNode: HasLevel,
+//@spec
+    requires edge_ok::<M::Edge>(), ok(this.view(), manager.num_levels_spec()), ok(then_case.view(), manager.num_levels_spec()), ok(else_case.view(), manager.num_levels_spec()),
+    ensures res is Ok ==> ok(res->Ok_0.view(), manager.num_levels_spec())
+        && forall|env: Env| #[trigger] sem(res->Ok_0.view(), env) == (if sem(this.view(), env) { sem(then_case.view(), env) } else { sem(else_case.view(), env) }),
+//@end
+//@fn file=crates/oxidd-core/src/function.rs path=trait:BooleanFunction/fn:restrict rename=api_restrict selfcall=Self::> withmgr=this props=C04
+//@header
+fn api_restrict<M>(manager: &M, this: &M::Edge, vars: &M::Edge) -> (res: AllocResult<M::Edge>)
+where M: Manager<Terminal = BDDTerminal> + HasApplyCache<M, BDDOp>, M::InnerNode: HasLevel,
+//@spec
+    requires edge_ok::<M::Edge>(), ok(this.view(), manager.num_levels_spec()), ok(vars.view(), manager.num_levels_spec()),
+    ensures res is Ok ==> restrict_post(this.view(), vars.view(), manager.num_levels_spec(), res->Ok_0.view()),
+//@end
+//@fn file=crates/oxidd-core/src/function.rs path=trait:BooleanFunctionQuant/fn:forall rename=api_forall selfcall=Self::> withmgr=this props=C04
+//@header
+fn api_forall<M>(manager: &M, this: &M::Edge, vars: &M::Edge) -> (res: AllocResult<M::Edge>)
+where M: Manager<Terminal = BDDTerminal> + HasApplyCache<M, BDDOp>, M::InnerNode: HasLevel,
+//@spec
+    requires edge_ok::<M::Edge>(), ok(this.view(), manager.num_levels_spec()), ok(vars.view(), manager.num_levels_spec()),
+    ensures res is Ok ==> quant_post(BDDOp::And as u8, this.view(), vars.view(), manager.num_levels_spec(), res->Ok_0.view()),
+//@end
+//@fn file=crates/oxidd-core/src/function.rs path=trait:BooleanFunctionQuant/fn:apply_forall rename=api_apply_forall selfcall=Self::> withmgr=this props=C04
+//@header
+fn api_apply_forall<M>(manager: &M, this: &M::Edge, op: BooleanOperator, rhs: &M::Edge, vars: &M::Edge) -> (res: AllocResult<M::Edge>)
+where M: Manager<Terminal = BDDTerminal> + HasApplyCache<M, BDDOp>, M::InnerNode: HasLevel,
+//@spec
+    requires edge_ok::<M::Edge>(), ok(this.view(), manager.num_levels_spec()), ok(rhs.view(), manager.num_levels_spec()), ok(vars.view(), manager.num_levels_spec()),
+    ensures res is Ok ==> apply_quant_post(BDDOp::And as u8, bo_code(op), this.view(), rhs.view(), vars.view(), manager.num_levels_spec(), res->Ok_0.view()),
+//@end
+//@fn file=crates/oxidd-core/src/function.rs path=trait:BooleanFunctionQuant/fn:exists rename=api_exists selfcall=Self::> withmgr=this props=C04
+//@header
+fn api_exists<M>(manager: &M, this: &M::Edge, vars: &M::Edge) -> (res: AllocResult<M::Edge>)
+where M: Manager<Terminal = BDDTerminal> + HasApplyCache<M, BDDOp>, M::InnerNode: HasLevel,
+//@spec
+    requires edge_ok::<M::Edge>(), ok(this.view(), manager.num_levels_spec()), ok(vars.view(), manager.num_levels_spec()),
+    ensures res is Ok ==> quant_post(BDDOp::Or as u8, this.view(), vars.view(), manager.num_levels_spec(), res->Ok_0.view()),
+//@end
+//@fn file=crates/oxidd-core/src/function.rs path=trait:BooleanFunctionQuant/fn:apply_exists rename=api_apply_exists selfcall=Self::> withmgr=this props=C04
+//@header
+fn api_apply_exists<M>(manager: &M, this: &M::Edge, op: BooleanOperator, rhs: &M::Edge, vars: &M::Edge) -> (res: AllocResult<M::Edge>)
+where M: Manager<Terminal = BDDTerminal> + HasApplyCache<M, BDDOp>, M::InnerNode: HasLevel,
+//@spec
+    requires edge_ok::<M::Edge>(), ok(this.view(), manager.num_levels_spec()), ok(rhs.view(), manager.num_levels_spec()), ok(vars.view(), manager.num_levels_spec()),
+    ensures res is Ok ==> apply_quant_post(BDDOp::Or as u8, bo_code(op), this.view(), rhs.view(), vars.view(), manager.num_levels_spec(), res->Ok_0.view()),
+//@end
+//@fn file=crates/oxidd-core/src/function.rs path=trait:BooleanFunctionQuant/fn:unique rename=api_unique selfcall=Self::> withmgr=this props=C04
+//@header
+fn api_unique<M>(manager: &M, this: &M::Edge, vars: &M::Edge) -> (res: AllocResult<M::Edge>)
+where M: Manager<Terminal = BDDTerminal> + HasApplyCache<M, BDDOp>, M::InnerNode: HasLevel,
+//@spec
+    requires edge_ok::<M::Edge>(), ok(this.view(), manager.num_levels_spec()), ok(vars.view(), manager.num_levels_spec()),
+    ensures res is Ok ==> quant_post(BDDOp::Xor as u8, this.view(), vars.view(), manager.num_levels_spec(), res->Ok_0.view()),
+//@end
+//@fn file=crates/oxidd-core/src/function.rs path=trait:BooleanFunctionQuant/fn:apply_unique rename=api_apply_unique selfcall=Self::> withmgr=this props=C04
+//@header
+fn api_apply_unique<M>(manager: &M, this: &M::Edge, op: BooleanOperator, rhs: &M::Edge, vars: &M::Edge) -> (res: AllocResult<M::Edge>)
+where M: Manager<Terminal = BDDTerminal> + HasApplyCache<M, BDDOp>, M::InnerNode: HasLevel,
+//@spec
+    requires edge_ok::<M::Edge>(), ok(this.view(), manager.num_levels_spec()), ok(rhs.view(), manager.num_levels_spec()), ok(vars.view(), manager.num_levels_spec()),
+    ensures res is Ok ==> apply_quant_post(BDDOp::Xor as u8, bo_code(op), this.view(), rhs.view(), vars.view(), manager.num_levels_spec(), res->Ok_0.view()),
 //@end
 } // mod apply_rec
 } // mod simple
